@@ -111,11 +111,22 @@ theorem transportWrite_ok (line : Str) (w : W) (h : w.faults = []) :
     transportWrite line w = (.ok (), { w with writes := w.writes ++ [⟨line, true⟩] }) := by
   simp [transportWrite, h]
 
-theorem transportWrite_fail (line : Str) (w : W) (rest : List Bool) (h : w.faults = true :: rest) :
+theorem transportWrite_fail (line : Str) (w : W) (rest : List Fault) (h : w.faults = .fail :: rest) :
     transportWrite line w = (.error (.lib .transportFailed), { w with faults := rest, writes := w.writes ++ [⟨line, false⟩] }) := by
   simp [transportWrite, h]
 
-theorem transportWrite_pass (line : Str) (w : W) (rest : List Bool) (h : w.faults = false :: rest) :
+/-- The task is cancelled while it waits in the write. -/
+theorem transportWrite_cancel (line : Str) (w : W) (rest : List Fault) (h : w.faults = .cancel :: rest) :
+    transportWrite line w = (.error (.foreign .CancelledError), { w with faults := rest, writes := w.writes ++ [⟨line, false⟩] }) := by
+  simp [transportWrite, h]
+
+/-- Either way the write does not complete: the exception is the one the fault stands for. -/
+theorem transportWrite_abort (line : Str) (w : W) (f : Fault) (e : Exn) (rest : List Fault) (h : w.faults = f :: rest)
+    (he : f.exn = some e) :
+    transportWrite line w = (.error e, { w with faults := rest, writes := w.writes ++ [⟨line, false⟩] }) := by
+  cases f <;> simp [Fault.exn] at he <;> subst he <;> simp [transportWrite, h]
+
+theorem transportWrite_pass (line : Str) (w : W) (rest : List Fault) (h : w.faults = .pass :: rest) :
     transportWrite line w = (.ok (), { w with faults := rest, writes := w.writes ++ [⟨line, true⟩] }) := by
   simp [transportWrite, h]
 
